@@ -81,7 +81,7 @@ def wiring(P, mods, ell, prj, which):
             P.oblige('CoordTM.geo.wiring', 'coord.CoordTM.geo', key[1:], dict(result='discharged' if ok else 'sat', backend=be, ms=0, model=None), strict=True, pool=[{}],
                      refute=lambda w: _native(lambda: (lambda g_, r_: None if abs(float(g_.lat) - r_[0]) < 1e-9 and abs(float(g_.lon) - r_[1]) < 1e-9 else dict(
                          call='CoordTM(551, 300000.0, 1348000.0, projection=isg).geo(ans, float) vs grid2geo(551, 300000.0, 1348000.0, "south", ans, isg)', observed=(float(g_.lat), float(g_.lon)), expected=r_[0:2]))(
-                         cd.CoordTM(551, 300000.0, 1348000.0, projection=C.isg).geo(C.ans, float), cv.grid2geo(551, 300000.0, 1348000.0, 'south', C.ans, C.isg))),
+                         cd.CoordTM(551, 300000.0, 1348000.0, projection=C.isg).geo(C.ans, F), cv.grid2geo(551, 300000.0, 1348000.0, 'south', C.ans, C.isg))),
                      note='lat/lon are grid2geo(zone, east, north, hemisphere of the object, ellipsoid, projection of the object)')
     if 'CoordGeo.cart' in which:
         pth = run(lambda: cd.CoordGeo(la, lo, eh, oh).cart(ell), 'coord.CoordGeo.cart')
@@ -105,5 +105,5 @@ def wiring(P, mods, ell, prj, which):
         P.oblige('CoordCart.geo.wiring', 'coord.CoordCart.geo', 'all', dict(result='discharged' if ok else 'sat', backend=be, ms=0, model=None), strict=True, pool=[{}],
                  refute=lambda w: _native(lambda: (lambda g_, r_: None if abs(float(g_.lat) - r_[0]) < 1e-9 and abs(g_.ell_ht - r_[2]) < 1e-4 else dict(
                      call='CoordCart(-4052051, 4212836, -2545106).geo(ans, float) vs xyz2llh(..., ans)', observed=(float(g_.lat), float(g_.lon), g_.ell_ht), expected=r_))(
-                     cd.CoordCart(-4052051.0, 4212836.0, -2545106.0).geo(C.ans, float), cv.xyz2llh(-4052051.0, 4212836.0, -2545106.0, C.ans))),
+                     cd.CoordCart(-4052051.0, 4212836.0, -2545106.0).geo(C.ans, F), cv.xyz2llh(-4052051.0, 4212836.0, -2545106.0, C.ans))),
                  note='lat, lon, ell_ht are xyz2llh(x, y, z, ellipsoid) for the ellipsoid given to the method')
